@@ -1,4 +1,5 @@
 import Model.Graph.Sanity
+import Proofs.Lemmas.RunRefine
 /-!
 # C10 — malformed netlists are rejected
 
@@ -196,5 +197,39 @@ theorem dup_name_rejected (b : RawBlock)
 
 example : hasDupNat [3, 5, 3] = true := by decide
 example : hasDup ["a", "b"] = false := by decide
+
+/-! ### iteration order -/
+open RunRefine
+
+/-- `Block.__iter__` as a relation: repeatedly emit *any* pending net all of whose arguments are
+    cleared (sources, or destinations of nets emitted earlier); which one is a matter of set order.
+    `Kahn b pending cleared order`: `order` is a complete run of that loop. -/
+inductive Kahn (b : Block) : List Net → List Nat → List Net → Prop
+  | nil {cleared : List Nat} : Kahn b [] cleared []
+  | step {pending : List Net} {cleared : List Nat} {n : Net} {rest : List Net} :
+      n ∈ pending → (∀ a ∈ n.args, a ∈ cleared ∨ Src b a) →
+      Kahn b (pending.erase n) (n.dest :: cleared) rest → Kahn b pending cleared (n :: rest)
+
+/-- **whichever ready net is picked at each step**, the emitted order is a schedule: every net comes
+    after the drivers of all its arguments (this is the `sched` field of `C01.WF`) … -/
+theorem iter_order_is_schedule (b : Block) (pending : List Net) (cleared : List Nat) (order : List Net)
+    (h : Kahn b pending cleared order) : Sched b order cleared := by
+  induction h with
+  | nil => trivial
+  | step _ hready _ ih => exact ⟨hready, ih⟩
+
+/-- … and contains every net exactly as often as the block does -/
+theorem iter_order_is_permutation (b : Block) (pending : List Net) (cleared : List Nat) (order : List Net)
+    (h : Kahn b pending cleared order) : order.Perm pending := by
+  induction h with
+  | nil => exact List.Perm.refl _
+  | step hmem _ _ ih => exact (List.Perm.cons _ ih).trans (List.perm_cons_erase hmem).symm
+
+-- a two-net chain can only come out in dependency order
+example : Kahn ⟨#[⟨"i", 1, .input⟩, ⟨"t", 1, .plain⟩, ⟨"u", 1, .plain⟩], [], []⟩
+    [⟨.inv, [1], [2]⟩, ⟨.w, [0], [1]⟩] [] [⟨.w, [0], [1]⟩, ⟨.inv, [1], [2]⟩] := by
+  refine Kahn.step (by simp) ?_ (Kahn.step (by simp) ?_ (by simpa using Kahn.nil))
+  · intro a ha; simp at ha; subst ha; exact Or.inr (by simp [Src, Block.kind, Block.wire])
+  · intro a ha; simp at ha; subst ha; exact Or.inl (by simp [Net.dest])
 
 end Pyrtl.C10
